@@ -293,11 +293,27 @@ class _Dispatch:
         if isinstance(x, ast.Call):
             nm = call_name(x)
             if isinstance(x.func, ast.Attribute):
-                b = self.ev(x.func.value) if not (isinstance(x.func.value, ast.Name) and x.func.value.id not in self.env and x.func.value.id not in self.prog.classes) else None
+                try:
+                    b = self.ev(x.func.value)
+                except AnalysisError:
+                    b = None
                 if b == ("dict",) and nm == "keys":
                     return ("keys",)
                 if b == ("dict",) and nm == "get" and x.args and isinstance(x.args[0], ast.Constant):
                     return self.content.get(x.args[0].value, self.ev(x.args[1]) if len(x.args) > 1 else None)
+                if isinstance(b, tuple) and b and b[0] == "table" and nm == "get" and x.args:
+                    key = self.ev(x.args[0])
+                    for k, v in zip(b[1].keys, b[1].values):
+                        if isinstance(k, ast.Constant) and k.value == key:
+                            val = self.ev(v)
+                            return ("obj", val[1], "shared") if isinstance(val, tuple) and val[0] == "obj" else val
+                    return self.ev(x.args[1]) if len(x.args) > 1 else None
+            if isinstance(x.func, ast.Name) and x.func.id == "isinstance" and len(x.args) == 2 and x.func.id not in self.env:
+                v = self.ev(x.args[0])
+                types = {"str": str, "int": int, "float": float, "bool": bool, "dict": dict, "list": list, "tuple": tuple}
+                names = [t.id for t in (x.args[1].elts if isinstance(x.args[1], ast.Tuple) else [x.args[1]]) if isinstance(t, ast.Name)]
+                if names and all(n_ in types for n_ in names) and not isinstance(v, tuple):
+                    return isinstance(v, tuple(types[n_] for n_ in names))
             if isinstance(x.func, ast.Name) and x.func.id in ("list", "set", "tuple") and len(x.args) == 1:
                 return self.ev(x.args[0])
             f = self.ev(x.func) if isinstance(x.func, ast.Name) else None
